@@ -116,7 +116,7 @@ def main():
     by = {}
     for c in cands:
         by.setdefault(FILES[c["file"]], []).append(c)
-    quota = {"codegen": int(n * 0.6), "runtime": int(n * 0.15), "derive": int(n * 0.1), "cli": n - int(n * 0.6) - int(n * 0.15) - int(n * 0.1)}
+    quota = {"codegen": int(n * 0.7), "runtime": int(n * 0.12), "derive": int(n * 0.08), "cli": n - int(n * 0.7) - int(n * 0.12) - int(n * 0.08)}
     chosen = []
     for k, q in quota.items():
         chosen += rng.sample(by.get(k, []), min(q, len(by.get(k, []))))
